@@ -122,11 +122,15 @@ def perturb_lines(lines, rnd):
                         fail = 1
         if op in API_OPS and rnd.random() < 0.34:
             k = rnd.randrange(5)
+            # (configuration is the library's, not the calling thread's: half of these calls are made on a thread of
+            # their own; only the three low bits of the enabling argument count, whatever else is set)
+            th = " other" if rnd.random() < 0.5 else ""
             if k == 0:
-                out.append("inject " + depset)
+                out.append("inject " + depset + th)
             elif k == 1:
                 other = rnd.choice([m for m in range(8) if m != mask])
-                out += ["enable %d" % other, "enable %d" % mask]
+                hi = rnd.choice([0, 0, 8, 16, 24, 0xF8, 0xFFFFFFF8])
+                out += ["enable %d" % other, "enable %d%s" % (mask | hi, th)]
             elif k == 2 and op not in ("decode", "decodex"):
                 lid = rnd.choice(codec.LANG_IDS)
                 idx = codec.words_of(bytes(rnd.randrange(256) for _ in range(18)) + bytes([rnd.randrange(64)]), rnd.randrange(1024), 0, 0)
@@ -139,5 +143,20 @@ def perturb_lines(lines, rnd):
             elif k == 4 and fail == 0:
                 out += ["env fail=%d" % rnd.choice([1, 1, 2]), line, "env fail=0"]
                 continue
+        out.append(line)
+    return out
+
+
+def vary_configuration(lines, rnd):
+    """The same script with its configuration calls varied in ways the model ignores: only the three low bits of the
+    enabling argument count (whatever else is set), and it does not matter which thread configures the library."""
+    out = []
+    for line in lines:
+        tok = line.split()
+        if len(tok) == 2 and tok[0] == "enable" and tok[1].isdigit() and int(tok[1]) < 8 and rnd.random() < 0.4:
+            hi = rnd.choice([8, 16, 24, 0xF8, 0xFFFFFFF8, 0x80000000, 32])
+            line = "enable %d%s" % (int(tok[1]) | hi, " other" if rnd.random() < 0.3 else "")
+        elif len(tok) == 2 and tok[0] in ("enable", "inject") and rnd.random() < 0.25:
+            line += " other"
         out.append(line)
     return out
